@@ -727,6 +727,65 @@ def gen_classes(repo):
     out.append("end Mingus.Gen.Classes")
     return "\n".join(out) + "\n"
 
+# ---------------------------------------------------------------- midi (C16, C17)
+def lstrlit(s):
+    """readable Lean literal for the Tie files: lit "…" (falls back to a char list)"""
+    if all(32 <= ord(c) < 127 or c == "\n" for c in s):
+        return 'lit "' + s.replace("\\", "\\\\").replace('"', '\\"').replace("\n", "\\n") + '"'
+    return lstr(s)
+
+def src_table(c, names, f=lstr):
+    rows = []
+    for m in names:
+        rows.append("(%s, %s)" % (f(m), llist(f(ast.unparse(x)) for x in body_wo_doc(method(c, m)))))
+    return llist(rows)
+
+MIDI_TRACK_METHODS = ["__init__", "end_of_track", "play_Note", "play_NoteContainer", "play_Bar", "play_Track", "stop_Note",
+                      "stop_NoteContainer", "set_instrument", "header", "get_midi_data", "midi_event", "note_off", "note_on",
+                      "controller_event", "set_deltatime", "select_bank", "program_change_event", "set_tempo",
+                      "set_tempo_event", "set_meter", "time_signature_event", "set_key", "key_signature_event",
+                      "set_track_name", "track_name_event", "int_to_varbyte"]
+MIDI_FILE_METHODS = ["__init__", "get_midi_data", "header", "reset"]
+MIDI_WRITERS = ["write_Note", "write_NoteContainer", "write_Bar", "write_Track", "write_Composition"]
+
+def class_defaults(c, f=lstr):
+    rows = []
+    for n in c.body:
+        if isinstance(n, ast.Assign) and len(n.targets) == 1 and isinstance(n.targets[0], ast.Name):
+            rows.append("(%s, %s)" % (f(n.targets[0].id), f(ast.unparse(n.value))))
+    return llist(rows)
+
+def gen_midi(repo, f=lstrlit):
+    ev = parse(repo, "mingus/midi/midi_events.py")
+    ints, byts = [], []
+    for n in ev.body:
+        if isinstance(n, ast.Assign) and len(n.targets) == 1 and isinstance(n.targets[0], ast.Name):
+            v = lit(n.value)
+            if isinstance(v, bool):
+                continue
+            if isinstance(v, int):
+                ints.append((n.targets[0].id, v))
+            elif isinstance(v, bytes):
+                byts.append((n.targets[0].id, list(v)))
+    tt = parse(repo, "mingus/midi/midi_track.py")
+    tc = cls(tt, "MidiTrack")
+    ft = parse(repo, "mingus/midi/midi_file_out.py")
+    fc = cls(ft, "MidiFile")
+    out = ["import Mingus.Model.Basic", "namespace Mingus.Gen.Midi", "open Mingus"]
+    out.append("def intConsts : List (List Char × Nat) := " + llist("(%s, %d)" % (f(k), v) for k, v in ints))
+    out.append("def byteConsts : List (List Char × List Nat) := " + llist("(%s, %s)" % (f(k), llist(str(b) for b in v)) for k, v in byts))
+    out.append("def trackDefaults : List (List Char × List Char) := " + class_defaults(tc, f))
+    out.append("def trackSources : List (List Char × List (List Char)) := " + src_table(tc, MIDI_TRACK_METHODS, f))
+    out.append("def fileDefaults : List (List Char × List Char) := " + class_defaults(fc, f))
+    out.append("def fileSources : List (List Char × List (List Char)) := " + src_table(fc, MIDI_FILE_METHODS, f))
+    rows = []
+    for w in MIDI_WRITERS:
+        fn = func(ft, w)
+        rows.append("(%s, %s)" % (f(w + "(" + ast.unparse(fn.args) + ")"), llist(f(ast.unparse(x)) for x in body_wo_doc(fn))))
+    out.append("def writerSources : List (List Char × List (List Char)) := " + llist(rows))
+    out.append("end Mingus.Gen.Midi")
+    return "\n".join(out) + "\n"
+
 GENERATORS = {
     "Notes": gen_notes,
     "Keys": gen_keys,
@@ -740,6 +799,7 @@ GENERATORS = {
     "Bar": gen_bar,
     "Track": gen_track,
     "Classes": gen_classes,
+    "Midi": gen_midi,
 }
 
 def main():
